@@ -534,6 +534,12 @@ def sat_solve(F, cmd=None, sameas=None, verbose=0, need_witness=True):
                 witness = witness + [-v for v in range(1, n + 1)
                                      if v not in assigned]
                 witness.sort(key=abs)
+                # (an output cut in the middle of `-10` reads `-1`)
+                true = set(witness)
+                if not all(any(lit in true for lit in cls) for cls in F):
+                    raise RuntimeError(
+                        "Error during SAT solver call: {}.\n".format(solver_cmd)
+                        + "The assignment given by the solver does not satisfy the formula.")
             return (result, witness if need_witness else None)
 
     # no solver was available.
